@@ -17,6 +17,9 @@ structure StreamDrv where
   net : Option Net := none
   /-- per stream: how many of its `Send`s the script has acknowledged (the harness sees one `Send` per op) -/
   acked : List (String × Nat) := []
+  /-- streams whose SyncChain has returned (close signal consumed by the worker on its own) but the script has not
+  been told yet -/
+  unreported : List String := []
 
 def streamDrvInit (backend variant : String) : StreamDrv :=
   { handover := if variant = "tracked" then .tracked else .asIs, backend := backend }
@@ -145,8 +148,43 @@ def phaseOf (d : StreamDrv) (sid : String) : Option Phase :=
   | some n => (findStream n sid).map (·.s.phase)
   | none => none
 
+/-- a worker that is not held inside a `Send` consumes a close signal at the head of its queue by itself -/
+def normalize (d : StreamDrv) : StreamDrv :=
+  match d.net with
+  | none => d
+  | some n =>
+    n.streams.foldl (fun d e =>
+      match d.net with
+      | none => d
+      | some n =>
+        match findStream n e.sid with
+        | none => d
+        | some e =>
+          match e.s.phase, e.s.queue with
+          | .live, .close :: _ =>
+            if ackedOf d e.sid < e.s.sent.length then d
+            else { d with net := some (n.own d.handover e.sid .deliver), unreported := e.sid :: d.unreported }
+          | _, _ => d) d
+
+def streamStep1 (d : StreamDrv) (f : List String) : StreamDrv × String :=
+  match f with
+  | [op, sid] =>
+    if d.unreported.contains sid && (op = "deliver" || op = "faildeliver" || op = "cancel") then
+      match phaseOf d sid with
+      | some (.done r) => ({ d with unreported := d.unreported.filter (· != sid) }, "returned " ++ showEnd r)
+      | _ => (d, "bad-state")
+    else streamStep d f
+  | _ => streamStep d f
+
+def repeatOp1 (d : StreamDrv) (op sid : String) : Nat → List String → StreamDrv × String
+  | 0, acc => (d, " ; ".intercalate acc.reverse)
+  | fuel + 1, acc =>
+    let (d', r) := streamStep1 d [op, sid]
+    let d' := normalize d'
+    if r.startsWith "send " then repeatOp1 d' op sid fuel (r :: acc) else (d', " ; ".intercalate (r :: acc).reverse)
+
 /-- the engine's full op set: the conditional forms used by generated scripts on top of `streamStep` -/
-def streamStep' (d : StreamDrv) (f : List String) : StreamDrv × String :=
+def streamStep2 (d : StreamDrv) (f : List String) : StreamDrv × String :=
   match f with
   | ["begin", sid] =>
     match phaseOf d sid with
@@ -174,9 +212,15 @@ def streamStep' (d : StreamDrv) (f : List String) : StreamDrv × String :=
     | _ => (d, "bad-state")
   | ["drain", sid] =>
     match phaseOf d sid with
-    | some .live => repeatOp d "deliver" sid 100000 []
-    | some (.done _) => repeatOp d "deliver" sid 100000 []
+    | some .live => repeatOp1 d "deliver" sid 100000 []
+    | some (.done _) => repeatOp1 d "deliver" sid 100000 []
     | _ => (d, "bad-state")
-  | _ => streamStep d f
+  | "init" :: _ => let (d', r) := streamStep d f; ({ d' with unreported := [] }, r)
+  | ["reset"] => let (d', r) := streamStep d f; ({ d' with unreported := [] }, r)
+  | _ => streamStep1 d f
+
+def streamStep' (d : StreamDrv) (f : List String) : StreamDrv × String :=
+  let (d', r) := streamStep2 d f
+  (normalize d', r)
 
 end Drand.Driver
